@@ -164,7 +164,8 @@ class QPESolver:
 
         # Determine where to place QPE ancilla qubit indices
         self.n_state, self.n_ancilla = self.unitary.qubit_indices()
-        qft_start = max(list(self.n_state)+list(self.n_ancilla)) + 1
+        # The register starts above the qubits of the unitary and of the reference circuit
+        qft_start = max(max(list(self.n_state)+list(self.n_ancilla)) + 1, self.reference_circuit.width)
         self.qpe_qubit_list = list(reversed(range(qft_start, qft_start+self.n_qpe_qubits)))
 
         # Build the circuit that implements QPE given the Unitary that implements the controlled unitary circuits.
@@ -188,7 +189,7 @@ class QPESolver:
 
         self.freqs, _ = self.backend.simulate(self.reference_circuit+self.circuit)
         self.histogram = Histogram(self.freqs)
-        self.histogram.remove_qubit_indices(*(self.n_state+self.n_ancilla))
+        self.histogram.remove_qubit_indices(*range(min(self.qpe_qubit_list)))
         self.qpe_freqs = self.histogram.frequencies
         self.bitstring = max(self.qpe_freqs.items(), key=lambda x: x[1])[0]
 
